@@ -183,7 +183,7 @@ IdxRefs(s)   == \A p \in 1..Len(s.grp) : \A k \in 1..Len(s.grp[p].ix) : s.grp[p]
 SetRanges(s) == \A z \in 1..Len(s.ds) : s.ds[z].st >= 0 /\ s.ds[z].n >= 0 /\ s.ds[z].st + s.ds[z].n <= Len(s.dd)
 HeaderCounts(s) == s.hdr = Hdr(s)
 GroupsParallel(s) == /\ Len(s.grp) <= Len(s.gi) /\ Len(s.gmod) = Len(s.gi)
-                     /\ \A p \in 1..Len(s.grp) : s.grp[p].gidx = p - 1 \/ s.grp[p] = NoGroup
+                     /\ \A p \in 1..Len(s.grp) : s.grp[p].gidx \in {p - 1, 0}      \* 0: the slot of a group that was never loaded (placeholder)
 FlagsCoverData(s) == \A p \in 1..Len(s.grp) : s.grp[p] \notin {NoGroup, [NoGroup EXCEPT !.gidx = p - 1]} => (p <= Len(s.gmod) /\ s.gmod[p])
 VersionSane(s) == s.rmod \/ s.ver = s.orig
 Integrity(s) == TexRefs(s) /\ MatRefs(s) /\ IdxRefs(s) /\ SetRanges(s) /\ HeaderCounts(s) /\ GroupsParallel(s) /\ FlagsCoverData(s) /\ VersionSane(s)
